@@ -918,7 +918,9 @@ def oracle_candidate_conf(line, out):
         for s, p in qlab.items():
             if lo < p + peak < hi and s not in seen_q:
                 return f"query label {s} inside a segment's span is unaccounted for"
-    if int(okv["conf"]) != total:
+    from fractions import Fraction
+    a, _, b = okv["conf"].partition("/")
+    if Fraction(int(a), int(b) if b else 1) != total:
         return f"confidence {okv['conf']} != configured score of what is reported {total}"
     return None
 
